@@ -68,6 +68,9 @@ def stepSim (rcvT sndT : Nat) (sm : Sim) (tok : String) : Sim :=
       { sm with implS := more, dict := sm.dict ++ [(bytes, meaning)],
                 a := { sm.a with tcp := { sm.a.tcp with stream := sm.a.tcp.stream ++ bytes } },
                 toks := sm.toks ++ [stok] }
+  | ["g", n] =>
+    let (a', st) := Async.grow sm.a (n.toNat?.getD 0)
+    { sm with a := a', toks := sm.toks ++ [s!"G{st}:{n}"] }
   | ["t", n] => { sm with now := sm.now + n.toNat?.getD 0 }
   | _ => sm
 
@@ -84,15 +87,19 @@ def handle (inp out : String) : String :=
       --  * a handle is never handed back twice, only accepted handles are handed back
       --  * 'cache full' exactly when outstanding = configured size
       --  * reported number of waiting handles (pending + received) = accepted − handed back (+1 for a pushed configuration)
-      let rec chk (toks : List String) (accepted : Nat) (back : List String) : Option String :=
+      let rec chk (c : Nat) (toks : List String) (accepted : Nat) (back : List String) : Option String :=
         match toks with
         | [] => none
         | t :: rest =>
-          if t.startsWith "A0:" then
-            if accepted - back.length ≥ c then some "accepted-a-request-with-a-full-cache" else chk rest (accepted + 1) back
+          if t.startsWith "G0:" then chk ((t.drop 3).toString.toNat?.getD c) rest accepted back
+          else if t.startsWith "G" then
+            -- growing (or keeping) the cache is never refused; shrinking always is
+            if (((t.splitOn ":").getD 1 "").toNat?.getD 0) ≥ c then some "cache-growth-refused" else chk c rest accepted back
+          else if t.startsWith "A0:" then
+            if accepted - back.length ≥ c then some "accepted-a-request-with-a-full-cache" else chk c rest (accepted + 1) back
           else if t.startsWith "A" then
             if t.startsWith s!"A{CACHE_FULL}:" && accepted - back.length < c then some "cache-full-with-free-slots"
-            else chk rest accepted back
+            else chk c rest accepted back
           else if t.startsWith "R" then
             match t.splitOn ":" with
             | [_, idx, _, _, _, wt] =>
@@ -101,10 +108,45 @@ def handle (inp out : String) : String :=
               else if idx != "-" && idx != "-1" && (idx.toNat?.getD 9999) ≥ accepted then some "returned-a-handle-never-accepted"
               else if wt != s!"w{accepted - back'.length}" && wt != s!"w{accepted - back'.length + 1}" then
                 some "waiting-count-differs-from-accepted-minus-returned"     -- (+1: a pushed configuration may be waiting too)
-              else chk rest accepted back'
+              else chk c rest accepted back'
             | _ => some "unreadable-run-output"
-          else chk rest accepted back
-      let spec := chk ow 0 []
+          else chk c rest accepted back
+      -- a handle comes back with a response only if the scripted server sent a valid status-0 reply
+      -- bearing that request's identifier, and identifiers are not reused (they may legitimately
+      -- repeat only after 255 generations, so the check is limited to the first 250 submissions)
+      let rec own (steps toks : List String) (ids : List Nat) (okIds : List Nat) : Option String :=
+        match steps with
+        | [] => none
+        | st :: more =>
+          match st.splitOn ":" with
+          | ["a"] =>
+            (match toks with
+              | t :: tr =>
+                if t.startsWith "A0:" then
+                  let id := (t.drop 3).toString.toNat?.getD 0
+                  if ids.length < 250 && ids.contains id then some "request-identifier-reused"
+                  else own more tr (ids ++ [id]) okIds
+                else own more tr ids okIds
+              | [] => none)
+          | ["run"] =>
+            (match toks with
+              | t :: tr =>
+                (match t.splitOn ":" with
+                  | [_, idx, "3", _, _, _] =>
+                    if idx != "-1" && !(okIds.contains (ids.getD (idx.toNat?.getD 9999) 0)) then some "completed-without-a-reply-bearing-its-identifier"
+                    else own more tr ids okIds
+                  | _ => own more tr ids okIds)
+              | [] => none)
+          | "g" :: _ => own more (toks.drop 1) ids okIds
+          | ["srv", kind, k] =>
+            let id := ids.getD (k.toNat?.getD 9999) 0
+            let sent := if kind == "ok" then [id] else if kind == "stale" then [id ^^^ 2 ^ 32] else if kind == "unk" then [0xfffe] else []
+            own more (toks.drop 1) ids (sent ++ okIds)
+          | "srv" :: _ => own more (toks.drop 1) ids okIds
+          | _ => own more toks ids okIds
+      let spec := match chk c ow 0 [] with
+        | some w => some w
+        | none => own (steps.splitOn ",") ow [] []
       let cls := s!"async:c{min c 9}:a{min sm.added 9}:r{min sm.returned.length 9}"
       match spec with
       | some why => s!"specfail {cls} {why}"
